@@ -14,6 +14,11 @@ use serde_json::{json, Value};
 use std::collections::HashSet;
 use std::io::Write;
 
+/// object tags of call arguments and of the object made by `Default`: beyond every positional slot
+/// tag (capacities go up to 300 here; the exhaustive graphs use 10 + j and 31)
+const TARG: i64 = 1000;
+const TFRESH: i64 = 1999;
+
 pub struct Gen {
     pub rng: StdRng,
     pub classes: Cls,
@@ -32,10 +37,10 @@ impl Gen {
         }
     }
     fn k(&mut self, present: &[Cls], j: i64) -> Value {
-        json!({"kt": ARG + j, "c": self.class(present), "r": self.rng.gen_range(0..2)})
+        json!({"kt": TARG + j, "c": self.class(present), "r": self.rng.gen_range(0..2)})
     }
     fn v(&mut self, j: i64) -> Value {
-        json!({"vt": ARG + j, "v": self.rng.gen_range(0..self.vals)})
+        json!({"vt": TARG + j, "v": self.rng.gen_range(0..self.vals)})
     }
     fn w(&mut self) -> i64 {
         if self.rng.gen_bool(0.4) {
@@ -114,8 +119,42 @@ impl Gen {
         b
     }
 
+    /// items of a bulk construction: keys drawn so that repeats and present keys are common
+    fn items(&mut self, present: &[Cls], n: usize, with_v: bool) -> Value {
+        let v: Vec<Value> = (1..=n as i64)
+            .map(|j| {
+                let k = self.k(present, j);
+                let val = if with_v { self.v(j) } else { json!({"vt": 0, "v": 0}) };
+                json!({"k": k, "v": val})
+            })
+            .collect();
+        json!(v)
+    }
+    fn hint(&mut self) -> &'static str {
+        ["none", "exact", "zero"][self.rng.gen_range(0..3)]
+    }
+
     pub fn map_op(&mut self, present: &[Cls], cap: usize) -> Value {
         let len = present.len();
+        // bulk construction replaces an EMPTY container (collect / From<[_; N]>): up to one item too many
+        if len == 0 && self.rng.gen_bool(0.3) {
+            if cap <= 16 && self.rng.gen_bool(0.3) {
+                let it = self.items(&[], cap, true);
+                return json!({"name": "from_array", "items": it});
+            }
+            let n = self.rng.gen_range(0..=cap.min(24) + 1);
+            let narrow: Vec<Cls> = if self.rng.gen_bool(0.35) { vec![] } else { (0..(n as Cls / 2 + 1)).collect() }; // (repeats are common; sometimes more distinct keys than fit)
+            let mut it = self.items(&narrow, n, true);
+            if cap <= 24 && self.rng.gen_bool(0.25) {
+                // more pairwise different keys than fit, the surplus one somewhere in the middle or at the end
+                let extra = self.rng.gen_range(0..2usize);
+                it = self.items(&[], cap + 1 + extra, true);
+                for (j, x) in it.as_array_mut().unwrap().iter_mut().enumerate() {
+                    x["k"]["c"] = json!(j as Cls % self.classes.max(1));
+                }
+            }
+            return json!({"name": "from_iter", "items": it, "hint": self.hint()});
+        }
         // large containers: fill them up first (mostly fresh keys), then stay near the top
         if cap > 16 && len < cap - 4 && self.rng.gen_bool(0.85) {
             let mut c = self.rng.gen_range(0..self.classes);
@@ -125,7 +164,7 @@ impl Gen {
                 }
                 c = self.rng.gen_range(0..self.classes);
             }
-            return json!({"name": "insert", "k": {"kt": ARG + 1, "c": c, "r": 0}, "v": self.v(1)});
+            return json!({"name": "insert", "k": {"kt": TARG + 1, "c": c, "r": 0}, "v": self.v(1)});
         }
         if cap > 16 && len > 180 && self.rng.gen_bool(0.03) {
             // a very long request (J = 200): most of it present, the rest absent, all different
@@ -221,6 +260,29 @@ impl Gen {
 
     pub fn set_op(&mut self, present: &[Cls], _cap: usize) -> Value {
         let len = present.len();
+        if len == 0 && self.rng.gen_bool(0.3) {
+            if _cap <= 16 && self.rng.gen_bool(0.3) {
+                let it = self.items(&[], _cap, false);
+                return json!({"name": "s_from_array", "items": it});
+            }
+            let n = self.rng.gen_range(0..=_cap.min(24) + 1);
+            let narrow: Vec<Cls> = if self.rng.gen_bool(0.35) { vec![] } else { (0..(n as Cls / 2 + 1)).collect() };
+            let mut it = self.items(&narrow, n, false);
+            if _cap <= 24 && self.rng.gen_bool(0.25) {
+                let extra = self.rng.gen_range(0..2usize);
+                it = self.items(&[], _cap + 1 + extra, false);
+                for (j, x) in it.as_array_mut().unwrap().iter_mut().enumerate() {
+                    x["k"]["c"] = json!(j as Cls % self.classes.max(1));
+                }
+            }
+            return json!({"name": "s_from_iter", "items": it, "hint": self.hint()});
+        }
+        if self.rng.gen_bool(0.04) {
+            // Extend: a few items, some present already; now and then more than fit
+            let n = self.rng.gen_range(0..7usize);
+            let it = self.items(present, n, false);
+            return json!({"name": "s_extend", "items": it, "hint": self.hint()});
+        }
         if _cap > 16 && len < _cap - 4 && self.rng.gen_bool(0.85) {
             let mut c = self.rng.gen_range(0..self.classes);
             for _ in 0..8 {
@@ -229,7 +291,7 @@ impl Gen {
                 }
                 c = self.rng.gen_range(0..self.classes);
             }
-            return json!({"name": "s_insert", "k": {"kt": ARG + 1, "c": c, "r": 0}});
+            return json!({"name": "s_insert", "k": {"kt": TARG + 1, "c": c, "r": 0}});
         }
         if _cap > 16 && self.rng.gen_bool(0.15) {
             return json!({"name": if self.rng.gen_bool(0.5) { "s_eq_other" } else { "s_eq_clone" }});
@@ -367,6 +429,7 @@ fn run_map<const N: usize>(g: &mut Gen, steps: usize, out: &mut impl Write) -> (
             op["b"] = g.other_of(&mine, true).iter().map(|(c, v)| json!([c, v])).collect();
         }
         let mut ctx = Ctx::new(false);
+        ctx.fresh_tag = TFRESH;
         for (idx, (k, v)) in pre.iter().enumerate() {
             ctx.tags.bind_k(idx as i64 + 1, k.serial);
             ctx.tags.bind_v(idx as i64 + 1, v.serial);
@@ -384,8 +447,8 @@ fn run_map<const N: usize>(g: &mut Gen, steps: usize, out: &mut impl Write) -> (
         }
         if let Some(d) = ledger::with(|l| l.defaults.first().copied()) {
             // the object V::default() made is named by a tag of its own
-            ctx.tags.bind_v(FRESH, d);
-            op["fresh"] = json!(FRESH);
+            ctx.tags.bind_v(TFRESH, d);
+            op["fresh"] = json!(TFRESH);
         }
         let len = cage.m.len();
         let mut viol: Vec<String> = vec![];
@@ -429,9 +492,9 @@ fn rebind_fresh(ret: &Value, ctx: &Ctx) -> Value {
     let mut r = ret.clone();
     if let Some(a) = r.as_array_mut() {
         if a.len() >= 2 && a[0] == "vac" {
-            if let Some(sr) = ctx.tags.v.get(&FRESH) {
+            if let Some(sr) = ctx.tags.v.get(&TFRESH) {
                 let _ = sr;
-                a[1] = json!(FRESH);
+                a[1] = json!(TFRESH);
             }
         }
     }
